@@ -39,11 +39,11 @@ def run_check(prop, tier, seed):
     ctx.assumptions = list(spec.get("assumptions", []))
     try:
         # (2) known findings / corpus replay
-        for f in common.known_findings():
-            if prop in f.get("properties", []):
-                spec_replay = spec.get("replay_finding")
-                if spec_replay:
-                    spec_replay(ctx, f)
+        if not build_broken:
+            from . import findings
+            for f in common.known_findings():
+                if prop in f.get("properties", []):
+                    findings.replay(ctx, f)
         # (3) correspondence
         if not build_broken:
             for fn in spec.get("correspondence", []):
